@@ -49,9 +49,13 @@ def dump_state(db):
     out = {}
     names = [r[0] for r in db.execute("select name from sqlite_master where type = 'table' order by name")]
     for n in names:
-        cols = [r[1] for r in db.execute(f'pragma table_info("{n}")')]
+        info = list(db.execute(f'pragma table_info("{n}")'))
+        cols = [r[1] for r in info]
         rows = sorted(db.execute(f'select * from "{n}"').fetchall(), key=repr)
-        out[n] = (cols, rows)
+        # what the table accepts is part of its state: columns that refuse NULL (declared NOT NULL or part of the primary key -
+        # the renderer writes NOT NULL on key columns, which means the same) and the key columns in order
+        constraints = sorted((r[1], bool(r[3]) or bool(r[5]), r[5]) for r in info if r[3] or r[5])
+        out[n] = (cols, rows, constraints) if constraints else (cols, rows)
     return out
 
 
@@ -88,7 +92,13 @@ class Gen:
             return f'{self.num_expr(scope, depth - 1)} {k} {self.num_expr(scope, depth - 1)}'
         if k == '/':
             # keep a REAL operand: SQLAlchemy renders true division, SQLite divides integers
-            return f'{self.num_expr(scope, depth - 1)} / 2.0'
+            v = r.randrange(5)
+            if v < 2:
+                return f'{self.num_expr(scope, depth - 1)} / 2.0'
+            # a parenthesised operand of the same precedence level on the RIGHT of a division (and of a minus): the parentheses carry
+            # the meaning, `a / (b * c)` is not `a / b * c`
+            a, b = self.num_expr(scope, depth - 1), self.num_col(alias, table)
+            return [f'{a} / ({b} * 2.0)', f'{a} / (2.0 * {b} % 3)', f'{a} * 1.0 / ({b} / 4.0)', f'{a} - ({b} - 2.0 / ({alias}.id * 0.5))'][v - 2] if v < 5 else ''
         if k == '%':
             return f'{alias}.id % {r.choice([2, 3])}'
         if k == 'neg':
@@ -472,6 +482,19 @@ class Gen:
             return f'DELETE FROM {self.qual(t)}{w}'
         if k == 'create':
             cols = r.sample(['k INTEGER', 'v TEXT', 'f REAL', 'n INT', 'b BIGINT', 'ts DATE'], r.randint(1, 4))
+            if r.random() < 0.6:
+                # column attributes: NOT NULL / NULL on any column, one PRIMARY KEY (inline, with or without NOT NULL, or as a clause)
+                cols = [c + r.choice(['', ' NOT NULL', ' NOT NULL', ' NULL']) for c in cols]
+                j = r.randrange(len(cols))
+                pk = r.choice(['none', 'inline', 'inline-nn', 'clause'])
+                base = cols[j].split(' ')[0] + ' ' + cols[j].split(' ')[1]
+                if pk == 'inline':
+                    cols[j] = base + ' PRIMARY KEY'
+                elif pk == 'inline-nn':
+                    cols[j] = base + ' PRIMARY KEY NOT NULL'
+                elif pk == 'clause':
+                    cols.append(f'PRIMARY KEY ({base.split(" ")[0]})')
+                self.features.add('ddl:attrs')
             return f'CREATE TABLE {self.qual("newt")} ({", ".join(cols)})'
         return f'DROP TABLE {r.choice(["", "IF EXISTS "])}{self.qual(r.choice(["t3", "t2"]))}'
 
